@@ -1,0 +1,495 @@
+//! Verification hooks for the backtracking VM (cargo feature `verif-hooks`, off by default).
+//!
+//! Everything in here only *reads* VM state and keeps its own copies, so that VM behaviour is the
+//! same with and without the feature:
+//!
+//! * per-thread run statistics ([`VerifStats`]) and an optional instruction cap,
+//! * a lock-step shadow of the backtracking state: a full snapshot of the live state is taken
+//!   when a branch is pushed and compared when it is popped; cuts are checked to leave the
+//!   current values alone and to keep older branches restorable,
+//! * pairing of `BeginAtomic`/`EndAtomic` on the auxiliary stack,
+//! * [`VerifState`], a thin public wrapper over the private `State` so that operation
+//!   sequences can be driven from outside.
+
+use super::{Branch, Insn, Prog, Save, State, MAX_STACK};
+use alloc::string::String;
+use alloc::vec::Vec;
+use std::cell::{Cell, RefCell};
+
+/// Configuration of the hooks for VM runs started on the current thread.
+#[derive(Debug, Clone, Copy, PartialEq, Eq)]
+pub struct VerifConfig {
+    /// Keep the lock-step shadow (costs a copy of all slots per pushed branch).
+    pub shadow: bool,
+    /// Abort a run by panicking with a [`VerifStepCapHit`] payload after this many instructions.
+    pub step_cap: Option<u64>,
+}
+
+/// Panic payload used when the instruction cap of [`VerifConfig`] is hit.
+#[derive(Debug, Clone, Copy)]
+pub struct VerifStepCapHit(pub u64);
+
+/// What the monitors saw during VM runs on this thread since the last [`verif_take_stats`].
+#[derive(Debug, Clone, Default, PartialEq, Eq)]
+pub struct VerifStats {
+    /// VM runs finished (by value, error or unwinding)
+    pub runs: u64,
+    /// instructions executed
+    pub insns: u64,
+    /// backtracks counted against the backtrack limit, summed over runs
+    pub backtracks: u64,
+    /// backtracks of the most recent run
+    pub last_backtracks: u64,
+    /// branches pushed
+    pub pushes: u64,
+    /// branches popped (including those discarded by a failing negative look-around)
+    pub pops: u64,
+    /// largest number of branches on the stack
+    pub peak_branch_stack: u64,
+    /// largest length of the old-saves log
+    pub peak_oldsave: u64,
+    /// `Delegate` instructions executed
+    pub delegate_calls: u64,
+    /// values pushed on the auxiliary stack
+    pub aux_pushes: u64,
+    /// `EndAtomic` executions (cuts)
+    pub cuts: u64,
+    /// cuts that discarded at least two branches
+    pub cuts_multi: u64,
+    /// cuts whose discarded branches hold more than one old value of the same slot
+    pub cuts_same_slot: u64,
+    /// `EndAtomic` popped an entry that was not pushed by its structural `BeginAtomic`
+    pub aux_mismatch: u64,
+    /// comparisons made by the lock-step shadow
+    pub shadow_checks: u64,
+    /// comparisons that failed
+    pub shadow_faults: u64,
+    /// description of the first failed comparison
+    pub first_fault: Option<String>,
+}
+
+std::thread_local! {
+    static CONFIG: Cell<VerifConfig> = const { Cell::new(VerifConfig { shadow: false, step_cap: None }) };
+    static STATS: RefCell<VerifStats> = RefCell::new(VerifStats::default());
+}
+
+/// Set the hook configuration for VM runs started on this thread.
+pub fn verif_set_config(config: VerifConfig) {
+    CONFIG.with(|c| c.set(config));
+}
+
+/// Return and reset the statistics accumulated on this thread.
+pub fn verif_take_stats() -> VerifStats {
+    STATS.with(|s| core::mem::take(&mut *s.borrow_mut()))
+}
+
+/// Snapshot of the live state: the slots below the auxiliary stack, and the auxiliary stack.
+#[derive(Debug, Clone, PartialEq, Eq)]
+struct Snap {
+    slots: Vec<usize>,
+    aux: Vec<usize>,
+    aux_tags: Vec<usize>,
+}
+
+/// Monitor state attached to a `State`.
+#[derive(Debug, Clone)]
+pub(super) struct Monitor {
+    shadow_on: bool,
+    publish: bool,
+    step_cap: Option<u64>,
+    shadow: Vec<Snap>,
+    aux_tags: Vec<usize>,
+    stats: VerifStats,
+}
+
+impl Monitor {
+    pub(super) fn new() -> Monitor {
+        let config = CONFIG.with(|c| c.get());
+        Monitor {
+            shadow_on: config.shadow,
+            publish: true,
+            step_cap: config.step_cap,
+            shadow: Vec::new(),
+            aux_tags: Vec::new(),
+            stats: VerifStats::default(),
+        }
+    }
+
+    fn fault(&mut self, what: String) {
+        self.stats.shadow_faults += 1;
+        if self.stats.first_fault.is_none() {
+            self.stats.first_fault = Some(what);
+        }
+    }
+}
+
+impl Drop for Monitor {
+    fn drop(&mut self) {
+        if !self.publish {
+            return;
+        }
+        let mine = core::mem::take(&mut self.stats);
+        // `try_with`: the thread-local may already be gone during thread teardown
+        let _ = STATS.try_with(|s| {
+            let mut s = s.borrow_mut();
+            s.runs += 1;
+            s.insns += mine.insns;
+            s.backtracks += mine.last_backtracks;
+            s.last_backtracks = mine.last_backtracks;
+            s.pushes += mine.pushes;
+            s.pops += mine.pops;
+            s.peak_branch_stack = s.peak_branch_stack.max(mine.peak_branch_stack);
+            s.peak_oldsave = s.peak_oldsave.max(mine.peak_oldsave);
+            s.delegate_calls += mine.delegate_calls;
+            s.aux_pushes += mine.aux_pushes;
+            s.cuts += mine.cuts;
+            s.cuts_multi += mine.cuts_multi;
+            s.cuts_same_slot += mine.cuts_same_slot;
+            s.aux_mismatch += mine.aux_mismatch;
+            s.shadow_checks += mine.shadow_checks;
+            s.shadow_faults += mine.shadow_faults;
+            if s.first_fault.is_none() {
+                s.first_fault = mine.first_fault;
+            }
+        });
+    }
+}
+
+/// The auxiliary stack as the VM would read it from the given slot vector.
+fn aux_of(saves: &[usize], n: usize) -> Vec<usize> {
+    if saves.len() <= n {
+        return Vec::new();
+    }
+    let top = saves[n];
+    if top <= n + 1 || top > saves.len() {
+        return Vec::new();
+    }
+    saves[n + 1..top].to_vec()
+}
+
+fn snap_of(saves: &[usize], n: usize, aux_tags: &[usize]) -> Snap {
+    Snap {
+        slots: saves[..n.min(saves.len())].to_vec(),
+        aux: aux_of(saves, n),
+        aux_tags: aux_tags.to_vec(),
+    }
+}
+
+fn describe(what: &str, want: &Snap, got: &Snap) -> String {
+    alloc::format!(
+        "{}: expected slots {:?} aux {:?}, found slots {:?} aux {:?}",
+        what,
+        want.slots,
+        want.aux,
+        got.slots,
+        got.aux
+    )
+}
+
+pub(super) fn on_push(state: &mut State) {
+    let m = &mut state.verif;
+    m.stats.pushes += 1;
+    m.stats.peak_branch_stack = m.stats.peak_branch_stack.max(state.stack.len() as u64);
+    if m.shadow_on {
+        let snap = snap_of(&state.saves, state.explicit_sp, &m.aux_tags);
+        m.shadow.push(snap);
+    }
+}
+
+pub(super) fn on_pop(state: &mut State) {
+    state.verif.stats.pops += 1;
+    if !state.verif.shadow_on {
+        return;
+    }
+    let got = snap_of(&state.saves, state.explicit_sp, &[]);
+    let m = &mut state.verif;
+    match m.shadow.pop() {
+        Some(want) => {
+            m.stats.shadow_checks += 1;
+            if want.slots != got.slots || want.aux != got.aux {
+                m.fault(describe(
+                    "pop did not restore the state of its push",
+                    &want,
+                    &got,
+                ));
+            }
+            m.aux_tags = want.aux_tags;
+        }
+        None => m.fault(String::from("pop without a shadow snapshot")),
+    }
+    if m.shadow.len() != state.stack.len() {
+        m.fault(alloc::format!(
+            "after pop: {} branches but {} snapshots",
+            state.stack.len(),
+            m.shadow.len()
+        ));
+    }
+}
+
+pub(super) fn on_save(state: &mut State) {
+    let m = &mut state.verif;
+    m.stats.peak_oldsave = m.stats.peak_oldsave.max(state.oldsave.len() as u64);
+}
+
+pub(super) fn on_aux_push(state: &mut State) {
+    state.verif.stats.aux_pushes += 1;
+    state.verif.aux_tags.push(usize::MAX);
+}
+
+pub(super) fn on_aux_pop(state: &mut State) {
+    state.verif.aux_tags.pop();
+}
+
+/// For every `EndAtomic` the pc of the `BeginAtomic` it closes in the program text.
+pub(super) fn partners(prog: &Prog) -> Vec<usize> {
+    let mut partner = alloc::vec![usize::MAX; prog.body.len()];
+    let mut open = Vec::new();
+    for (pc, insn) in prog.body.iter().enumerate() {
+        match insn {
+            Insn::BeginAtomic => open.push(pc),
+            Insn::EndAtomic => {
+                if let Some(begin) = open.pop() {
+                    partner[pc] = begin;
+                }
+            }
+            _ => {}
+        }
+    }
+    partner
+}
+
+pub(super) fn on_insn(state: &mut State) {
+    let m = &mut state.verif;
+    m.stats.insns += 1;
+    if let Some(cap) = m.step_cap {
+        if m.stats.insns > cap {
+            std::panic::panic_any(VerifStepCapHit(cap));
+        }
+    }
+}
+
+pub(super) fn on_backtrack(state: &mut State, backtrack_count: usize) {
+    state.verif.stats.last_backtracks = backtrack_count as u64;
+}
+
+pub(super) fn on_delegate(state: &mut State) {
+    state.verif.stats.delegate_calls += 1;
+}
+
+pub(super) fn on_begin_atomic(state: &mut State, pc: usize) {
+    if let Some(tag) = state.verif.aux_tags.last_mut() {
+        *tag = pc;
+    }
+}
+
+/// Called by `EndAtomic` before it pops the auxiliary stack.
+pub(super) fn on_end_atomic(state: &mut State, pc: usize, partner: &[usize]) {
+    let tag = state.verif.aux_tags.last().copied();
+    if tag != Some(partner[pc]) {
+        state.verif.stats.aux_mismatch += 1;
+    }
+}
+
+/// What `before_cut` hands to `after_cut`.
+#[derive(Debug)]
+pub(super) struct CutProbe {
+    live: Option<Snap>,
+    branches: usize,
+}
+
+pub(super) fn before_cut(state: &mut State, count: usize) -> CutProbe {
+    let branches = state.stack.len();
+    let m = &mut state.verif;
+    m.stats.cuts += 1;
+    if branches >= count + 2 {
+        m.stats.cuts_multi += 1;
+    }
+    if branches > count {
+        // old values logged since branch `count` was pushed
+        let mut n = state.nsave;
+        for branch in &state.stack[count + 1..] {
+            n += branch.nsave;
+        }
+        let n = n.min(state.oldsave.len());
+        let region = &state.oldsave[state.oldsave.len() - n..];
+        let mut slots: Vec<usize> = region.iter().map(|s| s.slot).collect();
+        slots.sort_unstable();
+        if slots.windows(2).any(|w| w[0] == w[1]) {
+            m.stats.cuts_same_slot += 1;
+        }
+    }
+    let live = if m.shadow_on {
+        Some(snap_of(&state.saves, state.explicit_sp, &[]))
+    } else {
+        None
+    };
+    CutProbe { live, branches }
+}
+
+pub(super) fn after_cut(state: &mut State, count: usize, probe: CutProbe) {
+    let Some(before) = probe.live else {
+        return;
+    };
+    let n = state.explicit_sp;
+    let after = snap_of(&state.saves, n, &[]);
+    let m = &mut state.verif;
+    m.stats.shadow_checks += 1;
+    if before.slots != after.slots || before.aux != after.aux {
+        m.fault(describe("cut changed current values", &before, &after));
+    }
+    let want_branches = probe.branches.min(count);
+    if state.stack.len() != want_branches {
+        m.fault(alloc::format!(
+            "cut to {} from {} branches left {}",
+            count,
+            probe.branches,
+            state.stack.len()
+        ));
+    }
+    m.shadow.truncate(count);
+    // the remaining branches must still restore the state of their push: replay what `pop`
+    // would do on a copy, a few levels deep
+    let mut sim = state.saves.clone();
+    let mut log = state.oldsave.len();
+    let mut nsave = state.nsave;
+    let depth = state.stack.len();
+    for level in 0..depth.min(3) {
+        if nsave > log {
+            m.fault(String::from(
+                "after cut: old-saves log shorter than the save counts",
+            ));
+            break;
+        }
+        for save in state.oldsave[log - nsave..log].iter().rev() {
+            if save.slot < sim.len() {
+                sim[save.slot] = save.value;
+            }
+        }
+        log -= nsave;
+        let branch = &state.stack[depth - 1 - level];
+        nsave = branch.nsave;
+        let got = snap_of(&sim, n, &[]);
+        match m.shadow.get(depth - 1 - level) {
+            Some(want) => {
+                m.stats.shadow_checks += 1;
+                if want.slots != got.slots || want.aux != got.aux {
+                    let what = describe("after cut a pop would not restore its push", want, &got);
+                    m.fault(what);
+                    break;
+                }
+            }
+            None => {
+                m.fault(String::from("after cut: branch without a shadow snapshot"));
+                break;
+            }
+        }
+    }
+}
+
+/// Public wrapper over the VM's private backtracking state, for driving operation sequences
+/// from outside. Statistics of a `VerifState` are not published to the thread statistics.
+#[derive(Debug)]
+pub struct VerifState(State);
+
+impl core::fmt::Debug for State {
+    fn fmt(&self, f: &mut core::fmt::Formatter<'_>) -> core::fmt::Result {
+        f.debug_struct("State")
+            .field("saves", &self.saves)
+            .field("stack", &self.stack)
+            .field("oldsave", &self.oldsave)
+            .field("nsave", &self.nsave)
+            .finish()
+    }
+}
+
+impl Clone for VerifState {
+    fn clone(&self) -> VerifState {
+        let s = &self.0;
+        VerifState(State {
+            saves: s.saves.clone(),
+            stack: s
+                .stack
+                .iter()
+                .map(|b| Branch {
+                    pc: b.pc,
+                    ix: b.ix,
+                    nsave: b.nsave,
+                })
+                .collect(),
+            oldsave: s
+                .oldsave
+                .iter()
+                .map(|o| Save {
+                    slot: o.slot,
+                    value: o.value,
+                })
+                .collect(),
+            nsave: s.nsave,
+            explicit_sp: s.explicit_sp,
+            max_stack: s.max_stack,
+            options: s.options,
+            verif: s.verif.clone(),
+        })
+    }
+}
+
+impl VerifState {
+    /// A fresh state with `n_saves` slots; `shadow` turns the lock-step shadow on for it.
+    pub fn new(n_saves: usize, shadow: bool) -> VerifState {
+        let mut state = State::new(n_saves, MAX_STACK, 0);
+        state.verif.publish = false;
+        state.verif.shadow_on = shadow;
+        state.verif.step_cap = None;
+        VerifState(state)
+    }
+    /// Push a backtrack branch.
+    pub fn push(&mut self, pc: usize, ix: usize) -> bool {
+        self.0.push(pc, ix).is_ok()
+    }
+    /// Pop a backtrack branch.
+    pub fn pop(&mut self) -> (usize, usize) {
+        self.0.pop()
+    }
+    /// Write a slot.
+    pub fn save(&mut self, slot: usize, value: usize) {
+        self.0.save(slot, value)
+    }
+    /// Read a slot.
+    pub fn get(&self, slot: usize) -> usize {
+        self.0.get(slot)
+    }
+    /// Push on the auxiliary stack.
+    pub fn stack_push(&mut self, value: usize) {
+        self.0.stack_push(value)
+    }
+    /// Pop from the auxiliary stack.
+    pub fn stack_pop(&mut self) -> usize {
+        self.0.stack_pop()
+    }
+    /// Number of backtrack branches.
+    pub fn backtrack_count(&self) -> usize {
+        self.0.backtrack_count()
+    }
+    /// Discard the branches above `count`, keeping current values (instrumented like `EndAtomic`).
+    pub fn backtrack_cut(&mut self, count: usize) {
+        let probe = before_cut(&mut self.0, count);
+        self.0.backtrack_cut(count);
+        after_cut(&mut self.0, count, probe);
+    }
+    /// Number of slots below the auxiliary stack.
+    pub fn n_slots(&self) -> usize {
+        self.0.explicit_sp
+    }
+    /// Current content of the auxiliary stack, bottom first.
+    pub fn aux(&self) -> Vec<usize> {
+        aux_of(&self.0.saves, self.0.explicit_sp)
+    }
+    /// Length of the old-saves log and number of entries belonging to the current delta.
+    pub fn log_len(&self) -> (usize, usize) {
+        (self.0.oldsave.len(), self.0.nsave)
+    }
+    /// Statistics collected for this state by the monitors.
+    pub fn stats(&self) -> VerifStats {
+        self.0.verif.stats.clone()
+    }
+}
